@@ -9,10 +9,10 @@ MANIFEST = dict(
          "alive), the number of attempts is the closed form `firstStop` (characterised as the unique least stopping attempt), the values of exactly these attempts "
          "are forwarded in order, the terminal is the defined one (Retry: last error when the retries are spent, counted from the last delivered value with "
          "ResetOnSuccess, or the cancellation error; nothing subscribed once cancellation is observed) - Retry/RetryWithConfig, While*, DoWhile*, RepeatWith, "
-         "OnErrorResumeNextWith in full; Catch and Concat as `_partial` theorems excluding exactly the two known deviation classes (Catch: fallback subscribed while "
-         "the first attempt is alive, log s1 s2 t2 t1; Concat: sources after a failed one are still subscribed), each with a witness theorem replayed on the real code. "
+         "OnErrorResumeNextWith, Concat (since fix 808ed47) in full; Catch as a `_partial` theorem excluding exactly the known deviation class (fallback subscribed while "
+         "the first attempt is alive, log s1 s2 t2 t1), with a witness theorem replayed on the real code. "
          "Schedules: attempts that end inside Subscribe or after the operator entered Wait(); the remaining window (terminal between teardown registration and Wait(): "
-         "Wait() returns while the previous teardown is still running, log s1 s2 t1 ...) is a third known finding, modelled (overlapLog), proved non-sequential and driven on the real code (mode=tdrace). "
+         "Wait() returns while the previous teardown is still running, log s1 s2 t1 ...) is a second known finding, modelled (overlapLog), proved non-sequential and driven on the real code (mode=tdrace). "
          "Tie: kind `resub` - a scripted cold source whose n-th subscription plays the n-th outcome (inside Subscribe, or from a goroutine), with event log, "
          "counters and live gauge; model and real operators run on the same cases, trace + log + attempts + live + condition evaluations must be equal; plus a "
          "model-independent oracle (sequential log, closed-form attempt count, forwarded values, terminal) on the implementation result.",
@@ -123,8 +123,6 @@ def known_class(f):
         kc.add('waitWindow')
     if f.get('op') == 'Catch' and fails(0):
         kc.add('catchFallback')
-    if f.get('op') == 'Concat' and any(fails(j) for j in range(max(int(f.get('p', '0')) - 1, 0))):
-        kc.add('concatErrorBeforeLast')
     return kc
 
 
@@ -156,7 +154,7 @@ def oracle_resub(case, gd):
             return 'sequence: the subscribe/teardown log is not s1 t1 s2 t2 ... (an attempt started before the previous one was released)'
         if int(gd.get('live', '0')) > 1:
             return 'sequence: two attempts alive at once'
-    if 'concatErrorBeforeLast' not in kc and got_n != n:
+    if got_n != n:
         return f'count: {got_n} attempts, the configuration and the outcomes dictate {n}'
     tr = strip_ctx(gd.get('trace'))
     got_vals = [t[1:] for t in tr if t.startswith('N')]
